@@ -54,7 +54,7 @@ def install(R):
     S["GrowCrash"] = grow_crash
 
 
-    R.add(K + "grow", result="none", props=["C04", "C08", "C16"],
+    R.add(K + "grow", result="none", props=["C04", "C08", "C16", "C06"],
           types={"crop": "obj:Crop", "verbosity": "int"},
           # the function that is evaluated is the one given to grow, else the one that was SOWN (the crop's function file as it is on disk),
           # whatever an older handle of the crop may still hold in memory: an obligation at every call of it
@@ -128,14 +128,34 @@ def install_sow(R):
                            "mat(fs_content(InfoPath(self.location)), '_batch_remainder') == self._batch_remainder and "
                            "mat(fs_content(InfoPath(self.location)), 'shuffle') == self.shuffle and mhas(fs_content(InfoPath(self.location)), 'shuffle')")
 
+    def farmer_pickle(eng, fr, f):
+        """what a sowing stores for the crop's farmer: the pickle of a deep copy of the farmer AS IT IS NOW, with its function removed"""
+        import ast as _ast
+        fv = eng.as_V(f)
+        dc = z3.Function("ext:copy.deepcopy/1", V, V)(fv)
+        wa = z3.Function("with_attr:fn", V, V, V)(dc, eng.as_V(NONE))
+        st = fr.st
+        had = st.env.get("__fp")
+        st.env["__fp"] = mk_V(wa)
+        try:
+            return eng.ev(_ast.parse("to_pickle(__fp)", mode="eval").body, fr)
+        finally:
+            if had is None:
+                st.env.pop("__fp", None)
+            else:
+                st.env["__fp"] = had
+    S["FarmerPickle"] = farmer_pickle
+    farmer_saved = ("farmer_stored_as_it_is_now", "mhas(fs_content(InfoPath(self.location)), 'farmer') and mat(fs_content(InfoPath(self.location)), 'farmer') == "
+                                                  "(None if self.farmer is None else FarmerPickle(self.farmer))")
+
     info_crash = "OldOr(InfoPath(self.location), " + info_saved[1] + ")"
     fn_crash = "OldOr(FnPath(self.location), fs_exists(FnPath(self.location)) and fs_complete(FnPath(self.location)))"
     prep_crash = ("OldOr2(FnPath(self.location), fs_exists(FnPath(self.location)) and fs_complete(FnPath(self.location)), "
                   "InfoPath(self.location), " + info_saved[1] + ")")
-    R.add(K + "Crop.save_info", cls="Crop", result="none", props=["C04", "C07"],
+    R.add(K + "Crop.save_info", cls="Crop", result="none", props=["C04", "C07", "C06"],
           requires=[],
           modifies=["ghost:FS"],
-          ensures=[info_saved, ("frame", "fs_same_except(InfoPath(self.location))")],
+          ensures=[info_saved, farmer_saved, ("frame", "fs_same_except(InfoPath(self.location))")],
           raises={"OSError": dict(ensures=["fs_same_except(InfoPath(self.location))", info_crash]),
                   "AnyError": dict(ensures=["fs_same_except(InfoPath(self.location))", info_crash])},
           crash=[("crash.settings_file_old_or_complete_and_new", info_crash)],
@@ -308,7 +328,7 @@ def install_sow3(R):
           ],
           raises={"AnyError": dict()})
 
-    R.add(K + "Crop.grow", cls="Crop", result="none", props=["C04", "C08", "C16"],
+    R.add(K + "Crop.grow", cls="Crop", result="none", props=["C04", "C08", "C16", "C06"],
           modifies=["*"],
           ensures=[("each_listed_batch_once", "ncalled('combo_runner_core') == 1 and FnIsGrow(call_arg('combo_runner_core', 'fn')) and "
                                               "slen(call_arg('combo_runner_core', 'combos')) == 1 and "
